@@ -35,13 +35,12 @@ inductive Item where
   | bad
   deriving DecidableEq, Repr
 
-/-- `x.linkProperties()` as an operation.  `dyn = true` (driver only) executes the assignments with every read in
-    the current state (`execDyn`) — a cross-check of the source resolution done by `plan`. -/
-def linkR (h : Heap) (p : Nat) (dyn : Bool := false) : R Heap :=
+/-- `x.linkProperties()` as an operation -/
+def linkR (h : Heap) (p : Nat) : R Heap :=
   match plan h p with
   | none => .outside
   | some acts =>
-    match (if dyn then execDyn h acts else exec h acts) with
+    match exec h acts with
     | .error c => .crash c
     | .ok h' => .ok h'
 
@@ -56,8 +55,10 @@ structure TermSpec where
   n : Val := .none
   g : Val := .none
   t : Val := .none              -- initial `taux["t"]` of a V
+  aux : Option Val := none      -- initial `taux["aux"]` of a V (from the lexicon entry), when present
   gram0 : Val := .none
   ord : Bool := false
+  warns : Nat := 0              -- warnings issued by the constructor (unknown lemma …)
   deriving Repr
 
 /-- `Terminal(kind, lemma)` : returns the new store and the handle -/
@@ -65,7 +66,7 @@ def mkTerminal (h : Heap) (sp : TermSpec) : Heap × Nat :=
   let x := h.n
   let nd : Node := { kind := sp.kind, lang := sp.lang, lemma := sp.lemma, props := sp.props,
                      gram0 := sp.gram0, ord := sp.ord }
-  let h1 : Heap := { h with n := x + 1, node := upd h.node x nd }
+  let h1 : Heap := { h with n := x + 1, node := upd h.node x nd, warns := h.warns + sp.warns }
   let h2 : Heap :=
     if sp.kind.hasPengInit then
       { h1 with peng := upd h1.peng x (some h1.nRec),
@@ -74,7 +75,7 @@ def mkTerminal (h : Heap) (sp : TermSpec) : Heap × Nat :=
     else h1
   let h3 : Heap :=
     if sp.kind = .V then
-      { h2 with taux := upd h2.taux x (some h2.nTRec), trec := upd h2.trec h2.nTRec { t := some sp.t },
+      { h2 with taux := upd h2.taux x (some h2.nTRec), trec := upd h2.trec h2.nTRec { t := some sp.t, aux := sp.aux },
                 nTRec := h2.nTRec + 1 }
     else h2
   (h3, x)
@@ -116,6 +117,12 @@ def allAorN (h : Heap) (l : List Nat) (a c : Nat) : Bool :=
   let hi := max a c
   ((l.drop lo).take (hi + 1 - lo)).all (fun e => h.isA e [.A, .N])
 
+/-- `self.addElement(self.removeElement(i), idx)` -/
+def moveElement (h : Heap) (p i idx : Nat) : Heap :=
+  match removeElement h p i with
+  | (h1, some e1) => addElement h1 p e1 (some idx)
+  | (h1, none) => h1
+
 /-- one iteration of the re-ordering loop of `Phrase.add` (Phrase.py:101-113) -/
 def reorderStep (h : Heap) (p i : Nat) : Heap :=
   match (h.kids p)[i]? with
@@ -129,10 +136,7 @@ def reorderStep (h : Heap) (p i : Nat) : Heap :=
           | some v => v
           | none => adjDefPos (h.node p).lang
         if (pos.pyEq (.s (s "pre")) && i > idx) || (pos.pyEq (.s (s "post")) && i < idx) then
-          if allAorN h (h.kids p) i idx then
-            match removeElement h p i with
-            | (h1, some e1) => addElement h1 p e1 (some idx)
-            | (h1, none) => h1
+          if allAorN h (h.kids p) i idx then moveElement h p i idx
           else h
         else h
     else h
@@ -144,30 +148,31 @@ def reorderLoop (h : Heap) (p : Nat) : List Nat → Heap
 def reorder (h : Heap) (p : Nat) : Heap := reorderLoop h p (List.range (h.kids p).length)
 
 /-- `Phrase.add(constituent, position)` for a Constituent -/
-def phraseAdd1 (h : Heap) (p e : Nat) (pos : Option Int) (dyn : Bool := false) : R Heap := do
-  let h1 := addElement (setParent h e (some p)) p e pos
-  let h2 ← linkR h1 p dyn
-  pure (reorder h2 p)
+def phraseAdd1 (h : Heap) (p e : Nat) (pos : Option Int) : R Heap :=
+  match linkR (addElement (setParent h e (some p)) p e pos) p with
+  | .ok h2 => .ok (reorder h2 p)
+  | .crash c => .crash c
+  | .outside => .outside
 
 mutual
 /-- `Phrase.add(constituent, position)` for any argument -/
-def phraseAdd (h : Heap) (p : Nat) (pos : Option Int) (dyn : Bool := false) : Arg Item → R Heap
+def phraseAdd (h : Heap) (p : Nat) (pos : Option Int) : Arg Item → R Heap
   | .none => .ok h
-  | .item (.node e) => phraseAdd1 h p e pos dyn
+  | .item (.node e) => phraseAdd1 h p e pos
   | .item .bad => .ok h.warn
   | .list [] => .ok h
   | .list [c] =>
     match c with
     | .none => .ok h
-    | .item (.node e) => phraseAdd1 h p e pos dyn
+    | .item (.node e) => phraseAdd1 h p e pos
     | .item .bad => .ok h.warn
     | .list _ => .ok h.warn            -- `constituent = constituent[0]` is itself a list: "bad Constituent"
-  | .list (c :: d :: r) => phraseAddAll h p pos dyn (c :: d :: r)
-def phraseAddAll (h : Heap) (p : Nat) (pos : Option Int) (dyn : Bool := false) : List (Arg Item) → R Heap
+  | .list (c :: d :: r) => phraseAddAll h p pos (c :: d :: r)
+def phraseAddAll (h : Heap) (p : Nat) (pos : Option Int) : List (Arg Item) → R Heap
   | [] => .ok h
   | c :: cs =>
-    match phraseAdd h p pos dyn c with
-    | .ok h1 => phraseAddAll h1 p pos dyn cs
+    match phraseAdd h p pos c with
+    | .ok h1 => phraseAddAll h1 p pos cs
     | .crash e => .crash e
     | .outside => .outside
 end
@@ -185,7 +190,7 @@ def initElems (h : Heap) (p : Nat) : List Item → Heap
   | .bad :: r => initElems h.warn p r
 
 /-- `Phrase(constType, elements)` : `PhraseEn`/`PhraseFr` according to `lang` -/
-def mkPhrase (h : Heap) (k : Kind) (lang : Lang) (args : List (Arg Item)) (dyn : Bool := false) : R (Heap × Nat) :=
+def mkPhrase (h : Heap) (k : Kind) (lang : Lang) (args : List (Arg Item)) : R (Heap × Nat) :=
   let x := h.n
   let h1 : Heap := { h with n := x + 1, node := upd h.node x { kind := k, lang := lang } }
   let elements := if args.isEmpty then [] else itemsOf (getElems args)
@@ -193,7 +198,7 @@ def mkPhrase (h : Heap) (k : Kind) (lang : Lang) (args : List (Arg Item)) (dyn :
   | none => .ok (h1, x)
   | some last =>
     let h2 := initElems h1 x elements.dropLast
-    match phraseAdd h2 x none dyn (.item last) with
+    match phraseAdd h2 x none (.item last) with
     | .ok h3 => .ok (h3, x)
     | .crash c => .crash c
     | .outside => .outside
@@ -201,9 +206,9 @@ def mkPhrase (h : Heap) (k : Kind) (lang : Lang) (args : List (Arg Item)) (dyn :
 /-! ### dependents -/
 
 /-- `Dependent.add(dependent, position)` -/
-def depAdd (h : Heap) (p : Nat) (pos : Option Int) (dyn : Bool := false) : Arg Item → R Heap
+def depAdd (h : Heap) (p : Nat) (pos : Option Int) : Arg Item → R Heap
   | .item (.node d) =>
-    if (h.kind d).isDep then linkR (addElement h p d pos) p dyn
+    if (h.kind d).isDep then linkR (addElement h p d pos) p
     else .ok h.warn
   | _ => .ok h.warn
 
@@ -214,7 +219,7 @@ def initDeps (h : Heap) (p : Nat) : List Item → Heap
   | .bad :: r => initDeps h.warn p r
 
 /-- `Dependent(params, deprel)` -/
-def mkDep (h : Heap) (k : Kind) (lang : Lang) (params : List (Arg Item)) (dyn : Bool := false) : R (Heap × Nat) :=
+def mkDep (h : Heap) (k : Kind) (lang : Lang) (params : List (Arg Item)) : R (Heap × Nat) :=
   match params with
   | [] => .crash .indexError                    -- warning, then `params[0]`
   | .item (.node t) :: rest =>
@@ -232,7 +237,7 @@ def mkDep (h : Heap) (k : Kind) (lang : Lang) (params : List (Arg Item)) (dyn : 
       | none => .ok (h4, x)
       | some last =>
         let h5 := initDeps h4 x ps.dropLast
-        match depAdd h5 x none dyn (.item last) with
+        match depAdd h5 x none (.item last) with
         | .ok h6 => .ok (h6, x)
         | .crash c => .crash c
         | .outside => .outside
@@ -324,24 +329,25 @@ def argsHandles : List (Arg Item) → List Nat
 end
 
 /-- one operation of a history (`outside` also when a handle does not exist yet) -/
-def runOp (h : Heap) (dyn : Bool := false) : Op → R Heap
+def runOp (h : Heap) : Op → R Heap
   | .mkT sp => .ok (mkTerminal h sp).1
   | .mkP k lang args =>
     if !k.isPhrase || (argsHandles args).any (· ≥ h.n) then .outside
-    else match mkPhrase h k lang args dyn with
+    else match mkPhrase h k lang args with
       | .ok r => .ok r.1
       | .crash c => .crash c
       | .outside => .outside
   | .mkD k lang params =>
     if !k.isDep || (argsHandles params).any (· ≥ h.n) then .outside
-    else match mkDep h k lang params dyn with
+    else match mkDep h k lang params with
       | .ok r => .ok r.1
       | .crash c => .crash c
       | .outside => .outside
   | .add p arg pos =>
     if p ≥ h.n || (argHandles arg).any (· ≥ h.n) then .outside
-    else if (h.kind p).isPhrase then phraseAdd h p pos dyn arg
-    else if (h.kind p).isDep then depAdd h p pos dyn arg
+    else if (h.kind p).isPhrase then phraseAdd h p pos arg
+    else if (h.kind p).isDep then depAdd h p pos arg
+    else if pos.isSome then .crash .typeError      -- `Terminal.add(self, _)` takes one argument
     else .ok h.warn                                -- `Terminal.add` warns
   | .opt x name val => if x ≥ h.n then .outside else opt h x name val
   | .typ x arg => if x ≥ h.n then .outside else .ok (typOp h x arg)
@@ -350,7 +356,7 @@ def runOp (h : Heap) (dyn : Bool := false) : Op → R Heap
 def runOps : Heap → List Op → R Heap
   | h, [] => .ok h
   | h, o :: os =>
-    match runOp h false o with
+    match runOp h o with
     | .ok h' => runOps h' os
     | .crash c => .crash c
     | .outside => .outside
